@@ -291,7 +291,7 @@ def history(ctx, i, backend_kind):
     ctx.case({"s": gen.shape_of(spec), "backend": case["backend"]}, hits > 0 or backend_kind == "disk", sample=case if i < 2 else None)
 
 
-FAULTS = ["payload-bitflip", "payload-truncate-0", "payload-truncate-half", "payload-swapped", "payload-non-bytes", "sig-bitflip", "sig-type", "sig-missing", "payload-missing", "torn-fresh", "torn-overwrite"]
+FAULTS = ["payload-bitflip", "payload-truncate-0", "payload-truncate-half", "payload-swapped", "payload-non-bytes", "payload-type-str", "payload-type-int", "payload-type-float", "payload-type-none", "payload-type-bytearray", "sig-bitflip", "sig-type", "sig-type-int", "sig-type-bytes", "sig-type-none", "sig-empty", "sig-non-ascii", "sig-short", "sig-missing", "payload-missing", "torn-fresh", "torn-overwrite"]
 
 
 def _evil_hook():
@@ -343,6 +343,12 @@ def disk_faults(ctx, dcache, spy, built, spec, pool, cacheable, case):
                 dc.set(key, dc.get(other))
             elif fault == "payload-non-bytes":
                 dc.set(key, Evil())
+            elif fault.startswith("payload-type-"):
+                # a value type the storage layer keeps natively (not pickled), so it comes back as itself
+                dc.set(key, {"str": "text", "int": 7, "float": 7.5, "none": None, "bytearray": bytearray(orig_payload)}[fault[13:]])
+            elif fault in ("sig-type-int", "sig-type-bytes", "sig-type-none", "sig-empty", "sig-non-ascii", "sig-short"):
+                dc.set(key + suffix, {"sig-type-int": 7, "sig-type-bytes": orig_sig.encode(), "sig-type-none": None, "sig-empty": "",
+                                      "sig-non-ascii": "\u00e9" + orig_sig[1:], "sig-short": orig_sig[:-1]}[fault])
             elif fault == "sig-bitflip":
                 dc.set(key + suffix, ("0" if orig_sig[0] != "0" else "1") + orig_sig[1:])
             elif fault == "sig-type":
